@@ -89,6 +89,50 @@ CHECKS.update({
         design="DESIGN.md §3 C18"),
 })
 
+TOPO_NOTE = ("Bounded alphabets (2 node names, 2 sites, 3 component models, 2 service names x 4 types exhaustively from seeded "
+             "topologies; 4 nodes, 6 models, 8 service types randomly); library-generated ids never compared (elements are "
+             "addressed by name paths); properties the model does not track are adopted at creation and then framed.")
+CHECKS.update({
+    "C07": dict(
+        technique="TLA+ reference model of the topology-building API (FimTopology) with the published graph rules as TLC invariants; "
+                  "TLC-generated behaviours (experiment and substrate flavour, from seeded topologies) and random walks replayed on "
+                  "the real API; Trace_FimTopology evaluates every rule on the implementation's projected model after every call",
+        text="TLC proves the graph rules (id/class/type/name, one owner per component/interface, links join interfaces only, every "
+             "service port has one peer, names unique in scope) for all histories of the bounded alphabet of the reference model; "
+             "every transition is replayed on ExperimentTopology/SubstrateTopology and 3k random 45-call walks are recorded; TLC "
+             "compares the complete projected model and the read-only views with the model and evaluates all rules on the "
+             "implementation's own model at every step.",
+        note=TOPO_NOTE, design="DESIGN.md §3 C07"),
+    "C08": dict(
+        technique="FimTopology removal operators defined declaratively (owned closure + peering artefacts) with the RemovalFrame "
+                  "action property checked by TLC; every applicable removal/disconnect in every reachable topology of the bound "
+                  "replayed on the real API, full post-state and handle caches judged by Trace_FimTopology",
+        text="Exactness of removal is a frame condition: TLC checks on the model that everything surviving a removal is unchanged, "
+             "and judges for every replayed removal (node, component, service, facility, link, sub-interface, disconnect, unpeer) "
+             "the complete post-state of the real model against the prediction; the handle through which a call was made must "
+             "report the same interfaces as a fresh lookup.",
+        note=TOPO_NOTE, design="DESIGN.md §3 C08"),
+    "C09": dict(
+        technique="FimTopology failure disjuncts (st = s) and the code-shaped multi-step service creation with rollback; TLC checks "
+                  "FailureAtomic; every failing call of every reachable state of the bound (bad argument at every position) and "
+                  "random walks with invalid calls injected are replayed, Trace_FimTopology requires an unchanged model",
+        text="For every reachable topology of the bound TLC enumerates all failing calls (duplicate names at each scope, invalid "
+             "names, unknown models, already-connected/stale interface as k-th argument, guardrail rejections); the real API must "
+             "raise the same exception class and leave the projected model identical.",
+        note=TOPO_NOTE, design="DESIGN.md §3 C09"),
+    "C10": dict(
+        technique="Constraint tables PINNED as TLA+ constants in FimTopology (live tables compared cell by cell); TLC enumerates the "
+                  "slice configuration space (MC_FimValidate), cross-checks the table-driven verdict against a table-free "
+                  "restatement, and every configuration is built through the public API and validated; verdict and recorded site "
+                  "judged by Trace_FimTopology",
+        text="Two-sided check over service type x interface count x site placement (set partitions) x interface kinds x declared "
+             "site x constrained properties x (constructor | connect): validate() must accept exactly the configurations the pinned "
+             "tables allow and record the inferred site; a silent edit of the Python tables is reported as 'constraint table changed'.",
+        note="0..3 interfaces quick / 0..4 thorough, <=3 sites; num_instances is NO_LIMIT for every type in the tables (checked), so "
+             "the per-site instance limit has no configurations to exercise.",
+        design="DESIGN.md §3 C10"),
+})
+
 PENDING = {}
 
 
